@@ -127,7 +127,7 @@ package server
 //@ spec func isChanDatagram(b []byte) bool = len(b) >= 4 && 0x4000 <= be16(b, 0) && be16(b, 0) <= 0x7FFF && be16(b, 2) <= len(b) - 4
 
 //@ func HandleRequest
-//@   requires reqWF(r) && ownWF(r) && ownCloseReady(r) && r.SrcAddr != nil && r.NonceHash != nil && mgrReady(r.AllocationManager)
+//@   requires reqWF(r) && ownWF(r) && ownCloseReady(r) && r.SrcAddr != nil && r.NonceHash != nil && mgrReady(r.AllocationManager) && tcpReady(r)
 //@   at-call handleDataPacket assert [C05,C09:demux-channel] isChanDatagram(r.Buff) && sameSlice(arg0.Buff, r.Buff) && arg0.Conn == r.Conn && arg0.SrcAddr == r.SrcAddr && arg0.AllocationManager == r.AllocationManager
 //@   at-call handleTURNPacket assert [C05,C09:demux-stun] !isChanDatagram(r.Buff) && sameSlice(arg0.Buff, r.Buff) && arg0.Conn == r.Conn && arg0.SrcAddr == r.SrcAddr && arg0.AllocationManager == r.AllocationManager
 
@@ -232,10 +232,47 @@ package server
 //@   ensures [C19:unknown-address] !(isUDP(req.SrcAddr) || isTCP(req.SrcAddr)) ==> pktWrites == old(pktWrites) && res != nil
 
 //@      // ---- STUN dispatch (C09, C19): unknown comprehension-required attributes are answered 420 with the same method and id
+//@ spec func tcpReady(req Request) bool = ownTCPReady(req) && req.AllocationManager.allocateConn != nil && allocsNonNil(req.AllocationManager) && (forall k :: haskey(req.AllocationManager.allocations, k) ==> tcpConnsWF(valat(req.AllocationManager.allocations, k))) && (typeis(req.Conn, *proto.STUNConn) ==> req.Conn.(*proto.STUNConn).nextConn != nil)
 //@ func handleTURNPacket
-//@   requires reqWF(req) && ownWF(req) && ownCloseReady(req) && req.NonceHash != nil && req.SrcAddr != nil && mgrReady(req.AllocationManager)
+//@   requires reqWF(req) && ownWF(req) && ownCloseReady(req) && req.NonceHash != nil && req.SrcAddr != nil && mgrReady(req.AllocationManager) && tcpReady(req)
 //@   at-call buildAndSend assert [C19:a] isResponseList(arg2)
 //@   at-call buildAndSend assert [C19:b] arg0 == req.Conn && arg1 == req.SrcAddr
 //@   at-call buildAndSend assert [C19:c] int(typeOf(arg2).Class) == 3 && len(arg2) == 4
 //@   at-call buildAndSend assert [C19:d] unbox(arg2[2], stun.ErrorCode) == 420
 //@   loop 0 invariant -1 <= rangeindex && rangeindex < len(ranged())
+
+//@      // ---- Connect / ConnectionBind (C01, C03, C04, C16, C19)
+//@ spec func ownTCPReady(req Request) bool = ownAlloc(req) != nil ==> (ownAlloc(req).tcpConnections != nil && tcpConnsWF(ownAlloc(req)))
+
+//@ func handleConnectRequest
+//@   requires reqWF(req) && ownWF(req) && ownTCPReady(req) && stunMsg != nil && req.NonceHash != nil && mgrReady(req.AllocationManager) && req.AllocationManager.allocateConn != nil && allocsNonNil(req.AllocationManager)
+//@   fresh authOK, granted
+//@   opaque allocWF, permTimers, chanTimers, timersDisjoint, chanNumsUnique, chanPeersUnique, chanRange, chansWF, chanPeersNonNil, permKeysOK
+//@   at-call buildAndSend assert [C19:correlated] respondsTo(req, stunMsg, arg0, arg1, arg2)
+//@   at-call buildAndSendErr assert [C19:correlated] respondsTo(req, stunMsg, arg0, arg1, arg3)
+//@   at-call buildAndSend assert [C03,C19:success-only-authed] int(typeOf(arg2).Class) == 2 ==> authOK
+//@   at-call (*allocation.Manager).GetAllocationForUserID assert [C03,C04:own-tuple] recv == req.AllocationManager && ownTuple(arg0, req) && authOK && arg1 == authUser
+//@   at-call (*allocation.Manager).GrantPermission assert [C01:veto-subject] recv == req.AllocationManager && arg0 == req.SrcAddr && ipStr(arg1) == xorAddrIP(stunMsg, stun.AttrXORPeerAddress)
+//@   at-call (*allocation.Manager).CreateTCPConnection assert [C04,C16:own-allocation] recv == req.AllocationManager && arg0 == ownAlloc(req) && ipStr(arg1.IP) == xorAddrIP(stunMsg, stun.AttrXORPeerAddress) && arg1.Port == xorAddrPort(stunMsg, stun.AttrXORPeerAddress)
+//@   at-call buildAndSendErr assert [C16:dupe-446] errIs(arg2, allocation.ErrDupeTCPConnection) && errCodeOf(arg3) != 400 && errCodeOf(arg3) != 403 ==> errCodeOf(arg3) == 446
+//@   at-call buildAndSendErr assert [C16:failure-447] errCodeOf(arg3) == 447 ==> errIs(arg2, allocation.ErrTCPConnectionTimeoutOrFailure)
+//@   at-call buildAndSendErr assert [C01,C16:veto-403] errCodeOf(arg3) == 403 ==> arg2 != nil && !granted[xorAddrIP(stunMsg, stun.AttrXORPeerAddress)]
+//@   at-call buildAndSend assert [C16:success-id] int(typeOf(arg2).Class) == 2 ==> len(arg2) == 4 && typeis(arg2[2], proto.ConnectionID) && has(ownAlloc(req).tcpConnections, unbox(arg2[2], proto.ConnectionID))
+//@   ensures [C03:answered-only-requester] forall c :: c != req.Conn ==> pktWrites[c] == old(pktWrites[c])
+
+//@ func handleConnectionBindRequest$1
+//@   requires tcpConn != nil && stunConn != nil && req.Log != nil && copyCompleteCancel != nil
+//@   at-call io.Copy assert [C16:pipe-client-to-peer] arg0 == tcpConn && arg1 == stunConn.nextConn
+//@ func handleConnectionBindRequest$2
+//@   requires tcpConn != nil && stunConn != nil && req.Log != nil && copyCompleteCancel != nil
+//@   at-call io.Copy assert [C16:pipe-peer-to-client] arg0 == stunConn.nextConn && arg1 == tcpConn
+
+//@ func handleConnectionBindRequest
+//@   requires reqWF(req) && stunMsg != nil && req.NonceHash != nil && allocsNonNil(req.AllocationManager) && (forall k :: haskey(req.AllocationManager.allocations, k) ==> tcpConnsWF(valat(req.AllocationManager.allocations, k)))
+//@   requires typeis(req.Conn, *proto.STUNConn) ==> req.Conn.(*proto.STUNConn).nextConn != nil
+//@   fresh authOK
+//@   at-call buildAndSend assert [C19:correlated] respondsTo(req, stunMsg, arg0, arg1, arg2)
+//@   at-call buildAndSendErr assert [C19:correlated] respondsTo(req, stunMsg, arg0, arg1, arg3)
+//@   at-call (*allocation.Manager).GetTCPConnection assert [C03,C16:bind-by-authed-user] recv == req.AllocationManager && authOK && arg0 == authUser && int(arg1) == be32(attr(stunMsg, stun.AttrConnectionID), 0)
+//@   at-call buildAndSend assert [C03,C16:success-after-bind] int(typeOf(arg2).Class) == 2 ==> authOK && tcpConn != nil && len(arg2) == 3 && typeis(arg2[2], proto.ConnectionID) && int(unbox(arg2[2], proto.ConnectionID)) == be32(attr(stunMsg, stun.AttrConnectionID), 0)
+//@   at-call (*allocation.Manager).RemoveTCPConnection assert [C16:teardown] recv == req.AllocationManager && int(arg0) == be32(attr(stunMsg, stun.AttrConnectionID), 0)
